@@ -44,8 +44,8 @@ func enumPaths(fn *ssa.Function) ([]fnPath, bool) {
 	onPath := map[*ssa.BasicBlock]bool{}
 	var conds []pathCond
 	ok := true
-	var walk func(b *ssa.BasicBlock)
-	walk = func(b *ssa.BasicBlock) {
+	var walk func(b, prev *ssa.BasicBlock)
+	walk = func(b, prev *ssa.BasicBlock) {
 		if !ok || onPath[b] {
 			return
 		}
@@ -60,18 +60,35 @@ func enumPaths(fn *ssa.Function) ([]fnPath, bool) {
 		case *ssa.Return:
 			out = append(out, fnPath{append([]pathCond{}, conds...), x})
 		case *ssa.If:
-			conds = append(conds, pathCond{x.Cond, true})
-			walk(b.Succs[0])
+			cond := x.Cond
+			// a condition spelled with && / || is a phi in this block: on this path its value is the incoming edge's
+			if ph, isPhi := cond.(*ssa.Phi); isPhi && ph.Block() == b && prev != nil {
+				for i, pb := range b.Preds {
+					if pb == prev && i < len(ph.Edges) {
+						cond = ph.Edges[i]
+					}
+				}
+			}
+			if k, isConst := constBool(cond); isConst {
+				if k {
+					walk(b.Succs[0], b)
+				} else {
+					walk(b.Succs[1], b)
+				}
+				return
+			}
+			conds = append(conds, pathCond{cond, true})
+			walk(b.Succs[0], b)
 			conds[len(conds)-1].pol = false
-			walk(b.Succs[1])
+			walk(b.Succs[1], b)
 			conds = conds[:len(conds)-1]
 		default:
 			for _, s := range b.Succs {
-				walk(s)
+				walk(s, b)
 			}
 		}
 	}
-	walk(fn.Blocks[0])
+	walk(fn.Blocks[0], nil)
 	return out, ok
 }
 
